@@ -47,6 +47,17 @@ func init() {
 			return map[string]int64{"k:bit255": 50, "k:nil": 1, "k=0": 1, "k=1": 1, "k=n-1": 1, "P=O": 5, "repr:scaled": 20, "repr:id-y": 3, "ksum<=64": 10, "scalar-history": 40, "elem-history": 40, "concurrent-batches": 4, "concurrent-multiplications": 32, "steered": 100, "bits:scalar-bit-seen-as-0-or-1": 512}
 		},
 	})
+
+	Registry["C01"].ColdStart = func(c *mon.Ctx) {
+		r := c.SharedRng(fmt.Sprintf("cold%d", c.Shard))
+		batch := &c01Case{KClass: "concurrent-cold-start"}
+
+		for g := 0; g < 16; g++ {
+			batch.Conc = append(batch.Conc, c01Case{E: mon.MkElemCase(gen.Fresh(r), gen.DrawRepr(r, false)), K: fmt.Sprintf("%x", gen.Draw(r, oracle.N).X)})
+		}
+
+		c01RunConcurrent(c, batch)
+	}
 }
 
 func c01Generate(c *mon.Ctx) {
@@ -218,7 +229,7 @@ func c01RunConcurrent(c *mon.Ctx, cs *c01Case) {
 
 	c.Count("concurrent-batches")
 
-	start := make(chan struct{})
+	line := mon.StartLine(len(jobs))
 
 	var wg sync.WaitGroup
 
@@ -228,7 +239,7 @@ func c01RunConcurrent(c *mon.Ctx, cs *c01Case) {
 		go func(j *job) {
 			defer wg.Done()
 			defer func() { j.pan = recover() }()
-			<-start
+			line()
 
 			for rep := 0; rep < 4; rep++ {
 				x := j.e.Copy().Multiply(j.s)
@@ -241,7 +252,6 @@ func c01RunConcurrent(c *mon.Ctx, cs *c01Case) {
 		}(j)
 	}
 
-	close(start)
 	wg.Wait()
 
 	for i, j := range jobs {
